@@ -102,12 +102,15 @@ Definition instants_of_wall (z : szone) (l : Z) : list Z :=
 
 (** the wall-clock seconds about which the property makes no claim: the second that ends a skipped
     or repeated interval (T + max(before, after)) and the first second of a skipped interval
-    (T + before when after > before; "strictly inside" excludes it) *)
+    (T + before when after > before; "strictly inside" excludes it).  A transition that leaves the
+    offset unchanged (abbreviation / DST flag only) skips and repeats nothing: no second is
+    excepted there (the property names these transitions explicitly). *)
 Fixpoint excepted_table (tr : list (Z * Z)) (cur l : Z) : bool :=
   match tr with
   | [] => false
   | (ti, o) :: rest =>
-      (l =? ti + Z.max cur o) || ((cur <? o) && (l =? ti + cur)) || excepted_table rest o l
+      (negb (cur =? o) && (l =? ti + Z.max cur o)) || ((cur <? o) && (l =? ti + cur))
+      || excepted_table rest o l
   end.
 Definition excepted_rule (r : Z + srule) (l : Z) : bool :=
   match r with
@@ -117,8 +120,9 @@ Definition excepted_rule (r : Z + srule) (l : Z) : bool :=
       existsb (fun yy =>
         let s := rule_start_utc a yy in let e := rule_end_utc a yy in
         (* start: std -> dst ; end: dst -> std *)
-        (l =? s + Z.max (r_std a) (r_dst a)) || ((r_std a <? r_dst a) && (l =? s + r_std a)) ||
-        (l =? e + Z.max (r_std a) (r_dst a)) || ((r_dst a <? r_std a) && (l =? e + r_dst a)))
+        negb (r_std a =? r_dst a) &&
+        ((l =? s + Z.max (r_std a) (r_dst a)) || ((r_std a <? r_dst a) && (l =? s + r_std a)) ||
+         (l =? e + Z.max (r_std a) (r_dst a)) || ((r_dst a <? r_std a) && (l =? e + r_dst a))))
         [y - 2; y - 1; y; y + 1; y + 2]
   end.
 Definition excepted_wall (z : szone) (l : Z) : bool :=
